@@ -34,7 +34,17 @@ def has_sym(xs):
         return False
 
 
-class sfloat(float):
+class _SFloatMeta(type):
+    """`isinstance(x, float)` in a module whose `float` is the shim: true for real floats and for symbolic reals."""
+
+    def __instancecheck__(cls, obj):
+        return isinstance(obj, (float, SymReal))
+
+    def __subclasscheck__(cls, sub):
+        return issubclass(sub, float)
+
+
+class sfloat(float, metaclass=_SFloatMeta):
     """`float` shim: passes symbolic scalars through, otherwise builtin float."""
 
     def __new__(cls, x=0.0):
@@ -52,25 +62,32 @@ class sint(int):
         return int(x, *a)
 
 
-def sisinstance(obj, cls):
-    if isinstance(obj, SymReal):
-        if cls is float or cls is sfloat:
-            return True
-        if isinstance(cls, tuple) and (float in cls or sfloat in cls):
-            return True
-        try:
-            import types
+def _members(cls):
+    """the classes named by an isinstance() second argument (class, tuple, union), with the shims mapped back"""
+    import types
 
-            if isinstance(cls, types.UnionType) and float in cls.__args__:
-                return True
-        except Exception:
-            pass
-        return False
+    if isinstance(cls, tuple):
+        out = []
+        for c in cls:
+            out += _members(c)
+        return out
+    if isinstance(cls, types.UnionType):
+        out = []
+        for c in cls.__args__:
+            out += _members(c)
+        return out
     if cls is sfloat:
-        cls = float
-    elif cls is sint:
-        cls = int
-    return isinstance(obj, cls)
+        return [float]
+    if cls is sint:
+        return [int]
+    return [cls]
+
+
+def sisinstance(obj, cls):
+    mem = _members(cls)
+    if isinstance(obj, SymReal):
+        return float in mem or SymReal in mem or object in mem
+    return isinstance(obj, tuple(mem))
 
 
 def _isf(d):
